@@ -351,10 +351,20 @@ where
         // into the `Box`, which is a `noalias` type.
         // FIXME: Use `Box::into_non_null` once stable
         let memo = NonNull::from(Box::leak(Box::new(memo)));
+        #[cfg(salsa_rs_salsa_verif)]
+        crate::verif_life::memo_alloc(
+            memo.as_ptr() as usize,
+            id.index(),
+            memo_ingredient_index.as_usize(),
+            // SAFETY: the allocation was created just above and is not yet shared.
+            unsafe { memo.as_ref() }.value.is_some(),
+        );
 
         if let Some(old_value) =
             self.insert_memo_into_table_for(zalsa, id, memo, memo_ingredient_index)
         {
+            #[cfg(salsa_rs_salsa_verif)]
+            crate::verif_life::memo_retire(old_value.as_ptr() as usize);
             // In case there is a reference to the old memo out there, we have to store it
             // in the deleted entries. This will get cleared when a new revision starts.
             //
